@@ -58,6 +58,6 @@ impl Read for ByteStream {
 
 impl From<ByteRegion> for ByteStream {
     fn from(bregion: ByteRegion) -> Self {
-        Self::new_from_parts(bregion.source, bregion.region, Offset::zero())
+        Self::new_from_parts(bregion.source, bregion.region, bregion.region.begin())
     }
 }
